@@ -79,7 +79,7 @@ def call(f, *a, **k):
 class C03(Prop):
     id = "C03"
     anchored = ["src/pewlib/io/thermo.py"]
-    cases = {"quick": 500, "thorough": 12000}
+    cases = {"quick": 400, "thorough": 8000}
     rule = ("one random acquisition (1..6 samples, 2..11 scans, 1..4 elements with spaces/brackets/32-character labels, any "
             "subset of the channels X/Y/Time/Analog/Counter, numbers with signs and exponents) written in both layouts with "
             "',' or ';' and '.' or ',' decimals, BOM on/off, CRLF/LF; explicit readers for every channel, params, sniffing, "
